@@ -10,6 +10,22 @@ _COMPONENTS_COMMON = {
 }
 
 CHECKS = {
+    "C01": {
+        "engine": "pcache_seq",
+        "level": "exploration",
+        "rule": "Seeded histories of 4-30 operations on one cache folder: parse(text from a seeded pool of valid, "
+                "whitespace-variant and syntactically broken texts; expiration/update flags; folder given or default), "
+                "process restart, version change (3 labels + a dirty one), clock jumps (+1 s .. +400 d, -1 d, -40 d), "
+                "crash of the process between two SQL statements, corruption of an entry (garbage, prefix, empty, "
+                "class gone, NULL), of the table layout and of the database file; configs nofault / faults. "
+                "distinct_nontrivial = distinct (abstract state, operation) pairs executed by parse operations, where "
+                "abstract state = (file class, process initialised?, label, bitmap of pool texts cached under the label, "
+                "bitmap of those older than a day).",
+        "assumptions": ["SQLite-internal torn writes are represented by whole-file corruption operations only",
+                        "a blob that still unpickles to a different object is outside the property and is never generated",
+                        "a seeded sample of histories"],
+        "components": _COMPONENTS_COMMON,
+    },
     "C02": {
         "engine": "pcache_conc",
         "level": "exploration",
@@ -26,6 +42,19 @@ CHECKS = {
 }
 
 MANIFEST_TEXT = {
+    "C01": {
+        "level_text": "Seeded search over cache histories with restart, crash, clock, version and corruption faults against "
+                      "the real parse() on a real SQLite file; after every parse the returned tree is compared "
+                      "structurally with an uncached parse under the current version marker, and the rows the database "
+                      "holds are checked (no failed parse stored, every unpicklable entry equals its reference). "
+                      "Fault-free and fault-injecting configurations are counted separately. Evidence, not proof.",
+        "design_ref": "DESIGN.md 2.5-2.6, 3.C01",
+        "level_note": "Trusts SQLite's atomic commit; corruption is injected from outside between calls (and by a crash "
+                      "inside a call), not inside SQLite's own page writes.",
+        "technique": "deterministic simulation: seeded operation/fault histories (restart, crash at SQL-statement "
+                     "boundaries, clock jumps, version change, storage corruption) with a differential oracle vs uncached "
+                     "parse",
+    },
     "C02": {
         "level_text": "Seeded search over thread/process interleavings at SQL-statement granularity with stall and crash "
                       "faults; real SQLite arbitrates locks on a real file, lock waits run on the simulated clock through "
@@ -60,7 +89,6 @@ NOT_APPLICABLE = {
     "C24": _PURE + "SymPy source generation depends on the flat class only (its deep copy of the tree is C06).",
     "C25": _PURE + "XML generation depends on the flat class only (its deep copy of the tree is C06).",
     # claimed in DESIGN.md, engines not built yet: listed here until their checks are registered
-    "C01": "in-family engine (pcache_seq) designed in DESIGN.md but not built yet",
     "C05": "in-family engine (flatten_hist) designed in DESIGN.md but not built yet",
     "C06": "in-family engine (copy_hist) designed in DESIGN.md but not built yet",
     "C17": "in-family engine (alias_hist) designed in DESIGN.md but not built yet",
